@@ -62,7 +62,8 @@ Queries(c) ==
                    pa \in CrossPrefixes, pb \in CrossPrefixes,
                    k2 \in { k \in Power : k # c.k /\ {k, c.k} # {0, 1} } }
     ELSE
-        { [kind |-> "compound"] }
+        \* a compound is recognised as such, and is never a scaled version of one of its own factors
+        { [kind |-> "compound"] } \cup { [kind |-> "xcomp", i |-> i] : i \in 1..Len(c.c.atoms) }
 
 Expected(c, qq) ==
     CASE qq.kind = "scale" ->
@@ -75,6 +76,8 @@ Expected(c, qq) ==
             [a |-> Str(qq.pa, c.u, c.k), b |-> Str(qq.pb, qq.u2, c.k), scalable |-> FALSE]
       [] qq.kind = "xpow" ->
             [a |-> Str(qq.pa, c.u, c.k), b |-> Str(qq.pb, c.u, qq.k2), scalable |-> FALSE]
+      [] qq.kind = "xcomp" ->
+            [a |-> c.c.atoms[qq.i], b |-> CompoundStr(c.c), scalable |-> FALSE]
       [] qq.kind = "compound" ->
             [s |-> CompoundStr(c.c), n |-> Len(c.c.atoms), atoms |-> c.c.atoms, seps |-> c.c.seps]
 
@@ -103,7 +106,7 @@ Reflexive == (IsScale /\ q.pa = q.pb) => r.exp10 = 0
 RatioToPower == IsScale => r.exp10 = (Exp(q.pa) - Exp(q.pb)) * PowVal(cfg.k)
 
 \* a cross pair is never scalable, a same-unit-same-power pair always is
-ScalableIffSame == (q.kind \in {"scale", "xunit", "xpow"}) =>
+ScalableIffSame == (q.kind \in {"scale", "xunit", "xpow", "xcomp"}) =>
     (r.scalable <=> q.kind = "scale")
 
 \* the table grammar has exactly one reading per atomic string
